@@ -580,7 +580,7 @@ def run(ctx):
     res = Result()
     budget = int(os.environ.get("VERIF_C07_ITEMS", 3 if ctx.quick() else 4))
     depth = int(os.environ.get("VERIF_C07_DEPTH", 2 if ctx.quick() else 3))
-    pool = os.environ.get("VERIF_C07_POOL", "abU" if ctx.quick() else "abUπ")
+    pool = os.environ.get("VERIF_C07_POOL", "abU")
     blocks = list(BLOCKS)
     if ctx.quick() or os.environ.get("VERIF_C07_ITEMS"):
         tasks = templates(budget, depth, blocks)
@@ -594,6 +594,10 @@ def run(ctx):
     if os.environ.get("VERIF_C07_ONLY"):
         tasks = [t for t in tasks if tname(t) == os.environ["VERIF_C07_ONLY"]]
     ctx.log(f"{len(tasks)} scope templates (<= {budget} items, nesting <= {depth}), names from `{pool}`")
+    pool2_tasks = []
+    if not ctx.quick() and not os.environ.get("VERIF_C07_ONLY"):
+        # the second built-in one-character name (the pi sign) collides on the small templates only: 4^k namings
+        pool2_tasks = templates(2, 2, blocks)
     fails = collections.OrderedDict(); counts = collections.Counter()
 
     def on_result(idx, task, recs, left, stats, err):
@@ -613,6 +617,10 @@ def run(ctx):
                     d["ex"].append(r)
     st, errs = explore.explore_many(famfactory(ctx.known, ctx.seed, pool), tasks, workers=ctx.workers, max_paths=50000, on_result=on_result, log=ctx.log)
     res.merge_stats(st)
+    if pool2_tasks:
+        st2, errs2 = explore.explore_many(famfactory(ctx.known, ctx.seed, "abUπ"), pool2_tasks, workers=ctx.workers, max_paths=50000, on_result=on_result, log=ctx.log)
+        res.merge_stats(st2)
+        ctx.log(f"pool `abUπ` on {len(pool2_tasks)} templates of <= 2 items: {st2.get('paths', 0)} paths")
     ctx.log(f"{st.get('paths', 0)} paths: {dict(counts)} panic={st.get('panic', 0)} violation={st.get('violation', 0)} unsupported={st.get('unsupported', 0)} wall={st.get('wall', 0):.1f}s")
     from . import semh
     semh.validate_samples(ctx, res)
